@@ -109,3 +109,7 @@ func TestVerifC08Regressions(t *testing.T) {
 		"namespaced-rollout-recreate-completes": rollout("RollingRecreate"),
 	})
 }
+
+func TestVerifC02Composite(t *testing.T) {
+	vs.Run(t, "C02", func(c *vs.Case) error { return vw.PropC02(c, compositeFactory, "composite") })
+}
